@@ -100,8 +100,27 @@ impl Resolver<'_> {
         Ok(Expr { span, ..res })
     }
 
-    #[allow(clippy::boxed_local)]
+    /// Resolves the body of a function whose arguments are all known.
+    ///
+    /// A function that calls itself would be resolved forever (there is nothing in the
+    /// language that could end the recursion), so the nesting of function bodies is limited.
     fn materialize_function(&mut self, closure: Box<Func>) -> Result<Expr> {
+        const MAX_FUNCTION_DEPTH: usize = 32;
+
+        if self.function_depth >= MAX_FUNCTION_DEPTH {
+            return Err(Error::new_simple(format!(
+                "function `{}` is nested too deeply; recursive functions are not supported",
+                closure.as_debug_name()
+            )));
+        }
+        self.function_depth += 1;
+        let res = self.materialize_function_body(closure);
+        self.function_depth = self.function_depth.saturating_sub(1);
+        res
+    }
+
+    #[allow(clippy::boxed_local)]
+    fn materialize_function_body(&mut self, closure: Box<Func>) -> Result<Expr> {
         log::debug!("stack_push for {}", closure.as_debug_name());
 
         let (func_env, body, return_ty) = env_of_closure(*closure);
